@@ -36,7 +36,7 @@ META = {
     "level": "proof",
     "technique": "Coq theorems over an executable byte-level model of the three text files, read_some_lines, _generate_file_names/_move_path on a finite-map disk and load_path (round trip by induction over the frames, reusing the fixed-point print/parse lemmas of C19), and over a state machine of treat_output's pn_olds queue (invariants over arbitrary accept/reject/restart histories) + functional lock-step of the extracted model with the real PathStorage/load_path and trace validation of the directory tree of real runs",
     "text": "Unbounded theorems: for every path (any number of frames, order columns, optional energies, NaN, any source files, index None, any step/move text) whose file base names are non-empty and free of white space and whose frames have the same number of order columns, load(store p) succeeds and returns frame by frame the same (base name re-rooted under load/<n>/accepted/, index (None -> 0), direction), every order and energy rounded to the written six decimals (half a unit of the sixth decimal at most, whatever the field width), absent energies as NaN; every file the loaded path refers to is a destination of the move into the path's own directory and exists; under the explicit hypothesis that distinct source files have distinct base names each referenced file has the content of its source (refuted without it). For every history of accepted ensembles, step ends and restarts, every n and every combination of delete_old / delete_old_all: a deleted path is not live, is not in the restart record on disk at that moment nor in the one written at the end of the step, has a number above n-2 (initial paths are never deleted), was replaced at least n-1 replacements earlier, new path numbers are never used twice, and every live path and every path of the restart record keeps its text and trajectory files. Tie: see the module doc string.",
-    "note": "Trusted: Coq kernel; extraction + ocaml/c14_driver.ml; py/params_c14.py (AST reader for formats, labels, file names, the three comparisons with n - 2; fails closed); the harness (py/sysharness.py, generators, os.remove/rmdir and PathStorage.output wrappers that log the order of effects). Python's format()/float() are trusted to be correctly rounded (checked per value against exact rationals). Assumed and evaluated on every case: base names non-empty and without white space, a uniform number of order columns, a non-empty path, the move text without line breaks, no moved file is one of the three text files, keep_traj_fnames extensions without '/'. Not modelled: directories, inf, '\\r' translation, unicode. Observation O2 (outside the statement): delete_old_all together with keep_traj_fnames ends in os.rmdir of a non-empty directory (OSError inside treat_output); the model reproduces it (C14_O2_rmdir_nonempty) and the check confirms it on the real program and reports it in the evidence, not as a violation. A crash in the middle of treat_output is C08's subject; restarts here are at step boundaries.",
+    "note": "PathStorage.output clears its target directory first (fix 5456497); the model has both variants (store_gen false: everything is removed, also a file the path being stored refers to - refuted by C14_inplace_refuted, found by this check and repaired in /repo as 32e0fd0; store_gen true: files the path refers to are spared); py/params_c14.py reads from the source which variant /repo is, C14_store_is_repaired pins the repaired one, and the correspondence runs against the variant found. Trusted: Coq kernel; extraction + ocaml/c14_driver.ml; py/params_c14.py (AST reader for formats, labels, file names, the three comparisons with n - 2; fails closed); the harness (py/sysharness.py, generators, os.remove/rmdir and PathStorage.output wrappers that log the order of effects). Python's format()/float() are trusted to be correctly rounded (checked per value against exact rationals). Assumed and evaluated on every case: base names non-empty and without white space, a uniform number of order columns, a non-empty path, the move text without line breaks, no moved file is one of the three text files, keep_traj_fnames extensions without '/'. Not modelled: directories, inf, '\\r' translation, unicode. Observation O2 (outside the statement): delete_old_all together with keep_traj_fnames ends in os.rmdir of a non-empty directory (OSError inside treat_output); the model reproduces it (C14_O2_rmdir_nonempty) and the check confirms it on the real program and reports it in the evidence, not as a violation. A crash in the middle of treat_output is C08's subject; restarts here are at step boundaries.",
     "design_ref": "4/C14",
 }
 LEVEL = "proof"
